@@ -2,7 +2,11 @@
 (* code -> spec for C17.  One event = one document pushed through one entry point of the
    library:   [a |-> "Obs", w |-> wrapper, eof |-> BOOLEAN, toks |-> token string,
                seen |-> positions whose unique word occurs in ANY text-bearing accessor of the result,
-               seq  |-> positions of the words found in the MAIN text, in order of occurrence there]
+               body |-> positions whose word occurs in the body-text accessors (main text, table cells),
+               seq  |-> positions of the words found in the MAIN text, in order of occurrence there,
+               meta |-> TRUE when the string was also extracted with the tokens `del` deleted,
+               del  |-> the deleted positions (must equal HtmlSkip!DelX, else the clause is void),
+               same |-> both extractions gave the same body text modulo white space]
    TLC classifies the token string with HtmlSkip!Class and accepts the event iff every MUST
    word was seen and no MUSTNOT word was seen.
    Wrapper "eml": README ("Returns body_plain when present, else body_html") documents that an
@@ -22,7 +26,7 @@ Traces == JsonDeserialize(IOEnv.TRACE_FILE)
 VARIABLES tid, l
 vars == <<tid, l>>
 
-Wrappers    == {"html", "mhtml_b64", "mhtml_qp", "mhtml_raw", "msg", "msgfile", "epub", "eml"}
+Wrappers    == {"html", "mhtml_b64", "mhtml_qp", "mhtml_raw", "msg", "msgfile", "msgfrag", "epub", "eml"}
 RawWrappers == {"eml"}
 
 Ev == Traces[tid].ev[l]
@@ -36,31 +40,32 @@ ClassFor(e) == H!ClassX(e.toks, e.w \in XmlWrappers)
 SeqOK(e) == /\ \A j \in 1..Len(e.seq) : e.seq[j] \in 1..Len(e.toks)
             /\ \A i \in 1..Len(e.seq) : \A j \in 1..Len(e.seq) : i # j => e.seq[i] # e.seq[j]
 
-Verdict(e) == LET cls == ClassFor(e) IN
-              /\ IF e.w \in RawWrappers THEN H!ConformsRaw(cls, SeenSet(e)) ELSE H!Conforms(cls, SeenSet(e))
-              /\ H!OrderOK(cls, e.seq)
+SetOf(q) == { q[j] : j \in 1..Len(q) }
+BodySet(e) == SetOf(e.body)
 
-(* KF-C17-01 (open known finding, EPUB only; named deviation OpenCellDroppedAtEof).
-   epub_extractor._XhtmlTextExtractor collects cell text in _current_cell and moves it to the table only at
-   </td> / </tr> / </table>.  When those end tags never reach the handler -- they lie inside a removable
-   element that is not closed before the end of input -- the cell is dropped with the VISIBLE text it already
-   holds.  Domain: wrapper epub, the string opens a <td>/<th>, and the reference parse ends inside a removable
-   element.  As-built prediction: exactly the MUST words after the cell's start tag may be missing; every other
-   obligation (other MUST words, all MUSTNOT words, order) holds.                                              *)
-CellStart(toks) == { i \in 1..Len(toks) : toks[i].k = "S" /\ toks[i].n \in {"td", "th"} }
-InDomainKF1(e) == /\ e.w = "epub"
-                  /\ CellStart(e.toks) # {}
-                  /\ H!RefScan(e.toks, 1, H!R0(TRUE)).E # ""
-KnownKF1(e) == /\ InDomainKF1(e)
-               /\ LET cls == ClassFor(e)
-                      c0  == CHOOSE i \in CellStart(e.toks) : \A j \in CellStart(e.toks) : i <= j
-                      waived == [i \in 1..Len(e.toks) |-> IF i > c0 /\ cls[i] = "MUST" THEN "DC" ELSE cls[i]]
-                  IN H!Conforms(waived, SeenSet(e)) /\ H!OrderOK(cls, e.seq)
+(* Wrapper "msgfrag": an HTML FRAGMENT as the body of a real .msg file.  read_msg_format_mail converts the body only
+   when it looks like HTML; nothing documents when that is, so the fragment carries obligations only if it contains a
+   bare start tag of the recogniser's list as of the pinned commit (the list may grow, it must not shrink).           *)
+MsgHtmlHints == {"p", "div", "span", "table", "tr", "td", "style", "script", "body"}
+Obliged(e) == e.w # "msgfrag" \/ \E i \in 1..Len(e.toks) : e.toks[i].k = "S" /\ e.toks[i].n \in MsgHtmlHints
+
+MetaOK(e) == LET xml == e.w \in XmlWrappers IN
+             (e.meta /\ H!AllDecided(ClassFor(e)) /\ SetOf(e.del) = H!DelX(e.toks, xml)) => e.same
+
+Verdict(e) == LET cls == ClassFor(e) IN
+              ~Obliged(e) \/
+              /\ IF e.w \in RawWrappers THEN H!ConformsRaw(cls, SeenSet(e))
+                                         ELSE H!Conforms2(cls, BodySet(e), SeenSet(e))
+              /\ H!OrderOK(cls, e.seq)
+              /\ MetaOK(e)
 
 WellEvent(e) == /\ e.w \in Wrappers
                 /\ H!WellFormed(e.toks)
                 /\ SeenSet(e) \subseteq 1..Len(e.toks)
                 /\ SeqOK(e)
+                /\ BodySet(e) \subseteq SeenSet(e)
+                /\ SetOf(e.del) \subseteq 1..Len(e.toks)
+                /\ e.meta \in BOOLEAN /\ e.same \in BOOLEAN
 
 TraceObs == /\ IsEvent("Obs")
             /\ WellEvent(Ev)
@@ -79,7 +84,6 @@ TraceAccept ==
 ExplainObs == /\ IsEvent("Obs")
               /\ (~WellEvent(Ev)) => PrintT(<<"MALFORMED", tid, l>>)
               /\ (WellEvent(Ev) /\ ~Verdict(Ev)) => PrintT(<<"BAD", tid, l, ClassFor(Ev)>>)
-              /\ (WellEvent(Ev) /\ ~Verdict(Ev) /\ KnownKF1(Ev)) => PrintT(<<"KF1", tid, l>>)
 ExplainSpec == TraceInit /\ [][ExplainObs]_vars
 
 (* Model-agreement mode (self-test of the ALGORITHM part, never part of the verdict): the observed
